@@ -13,14 +13,63 @@ use serde_json::{json, Value};
 
 const DELTAS: [f64; 8] = [-10.0, -1.0, -1e-9, 0.0, 1e-9, 0.5, 1.0, 10.0];
 const TEMPS: [f64; 5] = [1e-9, 0.1, 1.0, 10.0, 1e9];
-const CUR: f64 = 20.0;
+
+/// One acceptance case: objective of the current solution, nominal difference, temperature, and
+/// whether the candidate carries the same encoding as the current solution (a re-evaluated copy).
+#[derive(Clone, Copy, Debug)]
+struct Case {
+    cur: f64,
+    delta: f64,
+    t: f64,
+    same: bool,
+}
+impl Case {
+    fn json(&self) -> Value {
+        json!({"cur": self.cur, "delta": self.delta, "t": self.t, "same": self.same})
+    }
+    fn from(v: &Value) -> Option<Case> {
+        Some(Case { cur: v["cur"].as_f64().unwrap_or(20.0), delta: v["delta"].as_f64()?, t: v["t"].as_f64()?, same: v["same"].as_bool().unwrap_or(false) })
+    }
+    fn cand_tag(&self) -> u32 {
+        if self.same {
+            1
+        } else {
+            2
+        }
+    }
+}
+
+fn cases() -> Vec<Case> {
+    let mut v = vec![];
+    for d in DELTAS {
+        for t in TEMPS {
+            v.push(Case { cur: 20.0, delta: d, t, same: false });
+        }
+        // temperature exactly zero (alpha = 0 cooling reaches it after one pass)
+        v.push(Case { cur: 20.0, delta: d, t: 0.0, same: false });
+    }
+    // margins of a few ulps at temperatures far below them
+    for d in [-1e-15, 0.0, 2.220446049250313e-16, 1e-15, 1e-12] {
+        for t in [0.0, 1e-300, 1e-17, 1e-12] {
+            v.push(Case { cur: 1.0, delta: d, t, same: false });
+        }
+    }
+    // the candidate has the encoding of the current solution but another objective value
+    for d in [-1.0, 0.5, 1.0, 10.0] {
+        for t in [0.1, 1.0, 1e9] {
+            v.push(Case { cur: 20.0, delta: d, t, same: true });
+        }
+    }
+    v
+}
 
 type Obs = (Result<(), String>, Vec<Vec<(u32, Option<f64>)>>);
 
-fn run_accept(delta: f64, t: f64) -> Obs {
-    // stack (bottom first): sentinel, current (tag 1), candidate (tag 2, on top)
-    let cand = CUR + delta;
-    let mut st = state_with::<TagP>(vec![tpop(&[(9, 99.0)]), tpop(&[(1, CUR)]), tpop(&[(2, cand)])]);
+fn run_accept(c: Case) -> Obs {
+    // stack (bottom first): sentinel, current (tag 1), candidate (tag 2 or 1, on top)
+    let cand = c.cur + c.delta;
+    let mut st = state_with::<TagP>(vec![tpop(&[(9, 99.0)]), tpop(&[(1, c.cur)]), tpop(&[(c.cand_tag(), cand)])]);
+    let t = c.t;
     let c = ExponentialAnnealingAcceptance::new::<TagP>(t);
     let r = run_component(c.as_ref(), &TagP, &mut st).map_err(|e| format!("{:#}", e));
     (r, pops_of(&st).iter().map(|p| rd_tpop(p)).collect())
@@ -28,12 +77,21 @@ fn run_accept(delta: f64, t: f64) -> Obs {
 
 /// words to sweep: evenly spaced grid plus the neighbours of the exact threshold
 /// the difference of the objective values as the doubles actually stored (20 + 1e-9 - 20 != 1e-9)
-fn eff(delta: f64) -> f64 {
-    (CUR + delta) - CUR
+fn eff(c: Case) -> f64 {
+    (c.cur + c.delta) - c.cur
+}
+fn prob(c: Case) -> f64 {
+    let d = eff(c);
+    if d <= 0.0 {
+        1.0
+    } else {
+        (-d / c.t).exp()
+    }
 }
 
-fn sweep_words(delta: f64, t: f64, grid: usize) -> Vec<u64> {
-    let delta = eff(delta);
+fn sweep_words(c: Case, grid: usize) -> Vec<u64> {
+    let delta = eff(c);
+    let t = c.t;
     let shift = 64 - (grid as f64).log2() as u32;
     let mut w: Vec<u64> = (0..grid as u64).map(|k| (k << shift) | 0x3FF).collect();
     w.push(0);
@@ -51,31 +109,17 @@ fn sweep_words(delta: f64, t: f64, grid: usize) -> Vec<u64> {
     w
 }
 
-fn expected_accept(delta: f64, t: f64, word: u64) -> Option<bool> {
-    let delta = eff(delta);
-    if delta <= 0.0 {
-        return Some(true);
-    }
-    let p = (-(delta) / t).exp();
-    let u = (word >> 11) as f64 * (1.0 / (1u64 << 53) as f64);
-    // within 2^-52 of the threshold both answers are accepted
-    if (u - p).abs() <= 2.0f64.powi(-52) {
-        None
-    } else {
-        Some(u < p)
-    }
-}
-
-fn check_accept(delta: f64, t: f64, word: Option<u64>, out: &Outcome<Obs>) -> Option<(String, String)> {
-    let dclass = if delta < 0.0 {
+fn check_accept(c: Case, word: Option<u64>, out: &Outcome<Obs>) -> Option<(String, String)> {
+    let d = eff(c);
+    let dclass = if d < 0.0 {
         "better"
-    } else if delta == 0.0 {
+    } else if d == 0.0 {
         "equal"
     } else {
         "worse"
     };
-    let head = format!("C17 acceptance candidate={}", dclass);
-    let ctx = |w: String| format!("f(current)={}, f(candidate)={}, T={}, acceptance word {:?}: {}", CUR, CUR + delta, t, word, w);
+    let head = format!("C17 acceptance candidate={}{}{}", dclass, if c.t == 0.0 { " T=0" } else { "" }, if c.same { " same-encoding" } else { "" });
+    let ctx = |w: String| format!("f(current)={:?}, f(candidate)={:?}, T={:?}, candidate encoding {} the current one, acceptance word {:?}: {}", c.cur, c.cur + c.delta, c.t, if c.same { "equals" } else { "differs from" }, word, w);
     let (r, pops) = match out {
         Outcome::Done(o) => o,
         Outcome::Panic(m) => return Some((format!("{} panic", head), ctx(format!("panicked: {}", m.chars().take(200).collect::<String>())))),
@@ -88,36 +132,79 @@ fn check_accept(delta: f64, t: f64, word: Option<u64>, out: &Outcome<Obs>) -> Op
         return Some((format!("{} stack-effect", head), ctx(format!("stack (top first) {:?}: the two single-individual populations must be reduced to one holding the survivor", pops))));
     }
     let survivor = pops[0][0];
-    let cand = (2u32, Some(CUR + delta));
-    let cur = (1u32, Some(CUR));
+    let cand = (c.cand_tag(), Some(c.cur + c.delta));
+    let cur = (1u32, Some(c.cur));
     if survivor != cand && survivor != cur {
-        return Some((format!("{} survivor-is-neither", head), ctx(format!("survivor {:?}", survivor))));
+        return Some((format!("{} survivor-is-neither", head), ctx(format!("survivor {:?} is neither the current solution {:?} nor the candidate {:?}", survivor, cur, cand))));
+    }
+    if cand == cur {
+        return None;
     }
     let accepted = survivor == cand;
-    let exp = match word {
-        Some(w) => expected_accept(delta, t, w),
-        None => {
-            // no generator word drawn: the decision is deterministic, so its probability is 0 or 1
-            let p = (-(eff(delta)) / t).exp();
-            if delta <= 0.0 {
-                Some(true)
-            } else if p < 1.0 - 2.0f64.powi(-52) && p > 2.0f64.powi(-52) {
-                Some(!accepted) // whatever was decided, a deterministic decision contradicts 0 < p < 1
-            } else if p <= 2.0f64.powi(-52) {
-                Some(false)
-            } else {
-                Some(true)
-            }
+    // a better-or-equal candidate must always survive; a decision taken without any generator word is
+    // deterministic and must have probability 0 or 1; with a probability below 2^-60 (above 1-2^-60) no
+    // word other than the extreme ones may accept (reject). Everything in between is decided as a
+    // measure over the sweep (see `run`), not per word, so that any correct sampling scheme is accepted.
+    let p = prob(c);
+    let extreme = matches!(word, Some(0) | Some(u64::MAX)) || word.map(|w| w >> 11 == 0 || w >> 11 == (1u64 << 53) - 1).unwrap_or(false);
+    let exp = if d <= 0.0 {
+        Some(true)
+    } else if word.is_none() {
+        if p < 1.0 - 2.0f64.powi(-52) && p > 2.0f64.powi(-52) {
+            Some(!accepted)
+        } else {
+            Some(p > 0.5)
         }
+    } else if p < 2.0f64.powi(-60) && !extreme {
+        Some(false)
+    } else if p > 1.0 - 2.0f64.powi(-60) && !extreme {
+        Some(true)
+    } else {
+        None
     };
     if let Some(e) = exp {
         if accepted != e {
-            let p = (-(eff(delta)) / t).exp();
             return Some((
                 format!("{} {}", head, if accepted { "accepted-but-rule-rejects" } else { "rejected-but-rule-accepts" }),
-                ctx(format!("candidate {} although the Metropolis rule (acceptance probability {}) {} it for this word", if accepted { "survived" } else { "was discarded" }, if delta <= 0.0 { 1.0 } else { p }, if e { "accepts" } else { "rejects" })),
+                ctx(format!("candidate {} although the Metropolis rule (acceptance probability {:?}) {} it here", if accepted { "survived" } else { "was discarded" }, p, if e { "accepts" } else { "rejects" })),
             ));
         }
+    }
+    None
+}
+
+/// share of the evenly spaced grid words for which the candidate survived
+fn measure(c: Case, grid: usize, seed: u64, mut each: impl FnMut(&[u32], &Outcome<Obs>, Option<u64>)) -> (u64, u64) {
+    let words = sweep_words(c, grid);
+    let cfg = Cfg::prefix(&words, 1, seed);
+    let body = || run_accept(c);
+    let (mut acc, mut tot) = (0u64, 0u64);
+    let cand = (c.cand_tag(), Some(c.cur + c.delta));
+    tape::explore(&cfg, &body, &mut |prefix, out, log| {
+        if let Outcome::Done((Ok(()), pops)) = out {
+            if prefix.len() == 1 && (prefix[0] as usize) <= grid {
+                tot += 1;
+                if pops.first().and_then(|p| p.first()).cloned() == Some(cand) {
+                    acc += 1;
+                }
+            }
+        }
+        each(prefix, out, log.words.first().cloned());
+    });
+    (acc, tot)
+}
+
+fn measure_verdict(c: Case, acc: u64, tot: u64, grid: usize) -> Option<(String, String)> {
+    if tot == 0 || eff(c) <= 0.0 {
+        return None;
+    }
+    let p = prob(c);
+    let share = acc as f64 / tot as f64;
+    if (share - p).abs() > 2.0 / grid as f64 {
+        return Some((
+            format!("C17 acceptance candidate=worse{}{} {}", if c.t == 0.0 { " T=0" } else { "" }, if c.same { " same-encoding" } else { "" }, if share > p { "accepted-too-often" } else { "accepted-too-rarely" }),
+            format!("f(current)={:?}, f(candidate)={:?}, T={:?}: the candidate survives for {} of {} evenly spaced acceptance words ({}), exp(-delta/T) = {:?}", c.cur, c.cur + c.delta, c.t, acc, tot, share, p),
+        ));
     }
     None
 }
@@ -148,48 +235,38 @@ fn check_cooling(alpha: f64, t0: f64, k: usize) -> Option<(String, String)> {
 
 pub fn run(rep: &mut Report) {
     let thorough = rep.tier == Tier::Thorough;
-    rep.alpha("ExponentialAnnealingAcceptance on [sentinel, current, candidate(top)]: delta = f(candidate) - f(current) in {-10,-1,-1e-9,0,1e-9,0.5,1,10} x T in {1e-9,0.1,1,10,1e9} x acceptance word over an evenly spaced grid, 0, MAX and the words around the exact threshold exp(-delta/T)*2^53");
+    rep.alpha("ExponentialAnnealingAcceptance on [sentinel, current, candidate(top)]: f(current)=20, delta = f(candidate) - f(current) in {-10,-1,-1e-9,0,1e-9,0.5,1,10} x T in {0,1e-9,0.1,1,10,1e9}; f(current)=1 with delta in {-1e-15,0,1ulp,1e-15,1e-12} x T in {0,1e-300,1e-17,1e-12}; candidates with the encoding of the current solution but another objective; each x acceptance word over an evenly spaced grid, 0, MAX and the words around the exact threshold exp(-delta/T)*2^53");
     rep.alpha("GeometricCooling on Temperature: alpha in {0,0.5,0.9,0.99} x T0 in {1e-3,1,100} x 1..5 executions");
     rep.assume("the candidate is the top population, as produced by the SA template (copy of the current solution, perturbed)");
-    rep.assume("the acceptance decision is a function of the first generator word drawn by the component; words within 2^-52 of the threshold may go either way");
+    rep.assume("the acceptance probability is decided as the share of evenly spaced acceptance words (first generator word drawn) for which the candidate survives, within 2/grid of exp(-delta/T); decisions taken without any draw must have probability 0 or 1; with exp(-delta/T) below 2^-60 no non-extreme word may accept");
     let grid = if thorough { 1024 } else { 64 };
     let seed = rep.seed;
     let mut part = Part::new("acceptance.word-sweep");
-    part.bound("acceptance_word_grid", grid as u64).bound("delta_T_pairs", (DELTAS.len() * TEMPS.len()) as u64);
-    let pairs: Vec<(f64, f64)> = DELTAS.iter().flat_map(|d| TEMPS.iter().map(move |t| (*d, *t))).collect();
-    let subs: Vec<Part> = pairs
+    let cs = cases();
+    part.bound("acceptance_word_grid", grid as u64).bound("delta_T_cases", cs.len() as u64);
+    let subs: Vec<Part> = cs
         .par_iter()
-        .map(|&(delta, t)| {
+        .map(|&c| {
             let mut sub = Part::new("x");
-            let words = sweep_words(delta, t, grid);
-            let cfg = Cfg::prefix(&words, 1, seed);
-            let body = || run_accept(delta, t);
-            let mut acc = 0u64;
-            let mut tot = 0u64;
-            tape::explore(&cfg, &body, &mut |prefix, out, log| {
+            let mut viols = vec![];
+            let (acc, tot) = measure(c, grid, seed, |prefix, out, word| {
                 sub.transitions += 1;
                 sub.traces += 1;
-                let word = log.words.first().cloned();
-                if let Outcome::Done((Ok(()), pops)) = out {
-                    if prefix.len() == 1 && (prefix[0] as usize) <= grid {
-                        tot += 1;
-                        if pops.first().and_then(|p| p.first()).map(|i| i.0) == Some(2) {
-                            acc += 1;
-                        }
-                    }
-                }
-                if log.words.len() > 1 {
-                    sub.violate("C17 acceptance draws-more-than-one-word".to_string(), format!("delta={} T={}: {} words drawn", delta, t, log.words.len()), json!({"delta": delta, "t": t, "tape": prefix, "grid": grid, "seed": seed}));
-                }
-                if let Some((s, d)) = check_accept(delta, t, word, out) {
-                    sub.violate(s, d, json!({"delta": delta, "t": t, "tape": prefix, "grid": grid, "seed": seed}));
+                if let Some((s, d)) = check_accept(c, word, out) {
+                    viols.push((s, d, prefix.to_vec()));
                 }
             });
+            for (s, d, prefix) in viols {
+                sub.violate(s, d, json!({"case": c.json(), "tape": prefix, "grid": grid, "seed": seed}));
+            }
             sub.states = 1;
+            if let Some((s, d)) = measure_verdict(c, acc, tot, grid) {
+                sub.violate(s, d, json!({"case": c.json(), "tape": [], "grid": grid, "seed": seed, "measure": true}));
+            }
             if tot > 0 {
-                sub.outcome(format!("delta={} T={}: accepted {} of {} grid words", delta, t, acc, tot));
+                sub.outcome(format!("cur={} delta={} T={} same={}: accepted {} of {} grid words", c.cur, c.delta, c.t, c.same, acc, tot));
             } else {
-                sub.outcome(format!("delta={} T={}: no word drawn", delta, t));
+                sub.outcome(format!("cur={} delta={} T={} same={}: no word drawn", c.cur, c.delta, c.t, c.same));
             }
             sub
         })
@@ -223,17 +300,16 @@ pub fn replay(case: &Value) -> Result<Vec<(String, String)>, String> {
     if let Some(c) = case["cooling"].as_array() {
         return Ok(check_cooling(c[0].as_f64().unwrap(), c[1].as_f64().unwrap(), c[2].as_u64().unwrap() as usize).into_iter().collect());
     }
-    let delta = case["delta"].as_f64().ok_or("no delta")?;
-    let t = case["t"].as_f64().ok_or("no t")?;
+    let c = Case::from(&case["case"]).ok_or("no case")?;
     let grid = case["grid"].as_u64().unwrap_or(64) as usize;
     let seed = case["seed"].as_u64().unwrap_or(0);
     let tape: Vec<u32> = case["tape"].as_array().ok_or("no tape")?.iter().map(|x| x.as_u64().unwrap() as u32).collect();
-    let words = sweep_words(delta, t, grid);
-    let cfg = Cfg::prefix(&words, 1, seed);
-    let (out, log) = tape::run_once(&cfg, &tape, || run_accept(delta, t));
-    let mut v: Vec<(String, String)> = check_accept(delta, t, log.words.first().cloned(), &out).into_iter().collect();
-    if log.words.len() > 1 {
-        v.push(("C17 acceptance draws-more-than-one-word".to_string(), String::new()));
+    if case["measure"].as_bool() == Some(true) {
+        let (acc, tot) = measure(c, grid, seed, |_, _, _| {});
+        return Ok(measure_verdict(c, acc, tot, grid).into_iter().map(|(s, _)| (s, String::new())).collect());
     }
-    Ok(v)
+    let words = sweep_words(c, grid);
+    let cfg = Cfg::prefix(&words, 1, seed);
+    let (out, log) = tape::run_once(&cfg, &tape, || run_accept(c));
+    Ok(check_accept(c, log.words.first().cloned(), &out).into_iter().collect())
 }
